@@ -34,6 +34,11 @@ Leaves == {
   E(Ref("v"), <<Id("v")>>, FALSE, TRUE),
   E(Ref("my fld"), <<QId("my fld")>>, FALSE, TRUE),
   E(Ref("select"), <<QId("select")>>, FALSE, TRUE),
+  \* names spelled like the literal and operator words (Lookup finds them although they are no keyword tokens)
+  E(Ref("true"), <<QId("true")>>, FALSE, TRUE),
+  E(Ref("False"), <<QId("False")>>, FALSE, TRUE),
+  E(Ref("and"), <<QId("and")>>, FALSE, TRUE),
+  E(Ref("OR"), <<QId("OR")>>, FALSE, TRUE),
   E(Ref("a.b"), <<Id("a"), PT("."), IdT("b")>>, FALSE, TRUE),
   E(Ref("a.b.c"), <<Id("a"), PT("."), IdT("b"), PT("."), IdT("c")>>, FALSE, TRUE),
   E(Ref("a..c"), <<Id("a"), PT("."), PT("."), IdT("c")>>, FALSE, TRUE),
